@@ -521,3 +521,17 @@ func Watchdog(sub string, c any, d time.Duration, f func()) {
 
 // Errorf is fmt.Errorf (saves an import in property files).
 func Errorf(format string, a ...any) error { return fmt.Errorf(format, a...) }
+
+// Max tracks the maximum of a named metric (with the case description that produced it) in the shard notes.
+// Used to make calibration margins visible in the evidence.
+func Max(key string, v float64, desc string) {
+	mu.Lock()
+	defer mu.Unlock()
+	if res.Notes == nil {
+		res.Notes = map[string]any{}
+	}
+	cur, ok := res.Notes["max:"+key].(map[string]any)
+	if !ok || v > cur["value"].(float64) {
+		res.Notes["max:"+key] = map[string]any{"value": v, "case": desc}
+	}
+}
